@@ -43,6 +43,8 @@ type Job struct {
 	Rule      string          `json:"rule,omitempty"`       // oracle rule for rejects
 	ExpectVal json.RawMessage `json:"expect_val,omitempty"` // expected decoded tree
 	Label     string          `json:"label,omitempty"`
+	Remarshal bool            `json:"remarshal,omitempty"` // also require the marshal round trip of declared values
+	NoPanic   bool            `json:"no_panic,omitempty"`  // (expect any) only totality / all-or-nothing is judged
 }
 
 // Replay is the plain-JSON reproduction of one failing case.
@@ -124,6 +126,7 @@ type Ctx struct {
 	findings []Finding
 	sampleN  int
 	survey   map[string]string
+	avoidAll map[string]bool
 }
 
 // Survey reports development mode: failures are tallied instead of stopping
@@ -209,6 +212,16 @@ func (c *Ctx) loadFindings() {
 		if f.Property == c.ID {
 			c.findings = append(c.findings, f)
 		}
+		if f.Status == "open" {
+			// exclusion switches are global: a defect found under one property
+			// keeps the shared generators of every check out of its region
+			for _, a := range f.Avoid {
+				if c.avoidAll == nil {
+					c.avoidAll = map[string]bool{}
+				}
+				c.avoidAll[a] = true
+			}
+		}
 	}
 }
 
@@ -227,17 +240,7 @@ func (c *Ctx) Avoid(sw string) bool {
 			}
 		}
 	}
-	for _, f := range c.findings {
-		if f.Status != "open" {
-			continue
-		}
-		for _, a := range f.Avoid {
-			if a == sw {
-				return true
-			}
-		}
-	}
-	return false
+	return c.avoidAll[sw]
 }
 
 func (c *Ctx) Thorough() bool { return c.Tier == "thorough" }
@@ -445,6 +448,25 @@ func (c *Ctx) Regressions(eval EvalFn) {
 			c.Violation("replay:"+filepath.Base(p), "regression replay "+filepath.Base(p)+" fails: "+clip(obs, 200), &rr)
 		}
 	}
+}
+
+// ReplayIsFor reports whether the replay file named by VERIF_REPLAY (if any)
+// belongs to one of the given sub-checks; a part of a multi-part check that is
+// not addressed finishes empty.
+func (c *Ctx) ReplayIsFor(checks ...string) bool {
+	if c.Replay == "" {
+		return true
+	}
+	r, err := LoadReplay(c.Replay)
+	if err != nil {
+		return true
+	}
+	for _, k := range checks {
+		if r.Check == k {
+			return true
+		}
+	}
+	return false
 }
 
 // RunReplay evaluates the file named by VERIF_REPLAY; returns true when the
